@@ -1,5 +1,5 @@
 # replay of a bounded stand-in violation (C16): re-run native/c16_states.py
 import sys
-print('n=2 pure=True cat: photon statistics of mode 1 differ between bosonic [0.2428, 0.4759, 0.1982, 0.0691] and fock [0.5858, 0.3418, 0.0081, 0.0512]')
+print('n=2 pure=False cat-complex: quad_expectation(1,0.0) = [0.52073, 0.75012] on bosonic, [0.52073, 1.89214] on fock')
 print('REPLAY-VIOLATION')
 sys.exit(1)
